@@ -58,7 +58,7 @@ def structured_sources(rng, limit):
     loud = [["TXTPP#include p1"], ["TXTPP#include p2"], ["TXTPP#include p4"], ["TXTPP#include pc"], ["-TXTPP#run echo a"], ["-TXTPP#run sh pa"],
             ["  -TXTPP#run sh ab"], ["-TXTPP#write q"], ["-TXTPP#write", "-"], ["TXTPP#include d1"], ["-TXTPP#run true"], ["\t-TXTPP#write  q r "],
             ["TXTPP#include e0"], ["-TXTPP#write"]]
-    uses = [["-A"], ["x A y B"], ["AB"], ["x"], ["x A y B", "-A"], ["AB", "x A y B"]]
+    uses = [["-A"], ["x A y B"], ["AB"], ["x"], ["x A y B", "-A"], ["AB", "x A y B"], ["", "-A"], ["", "x A y B"], [" \t", "-A"], ["", "", "AB"]]
     out = []
     for t in tags:
         for q in [[]] + quiet:
@@ -70,11 +70,13 @@ def structured_sources(rng, limit):
                             out.append([t] + q + lo + q2 + u + ["x"])      # use after more directives
                         if rng.random() < 0.1:
                             out.append(q + [t] + lo + u + lo)              # quiet directive before the tag
-    for t1, t2 in (("TXTPP#tag A", "TXTPP#tag B"), ("TXTPP#tag B", "TXTPP#tag A")):
+    for t1, t2 in (("TXTPP#tag A", "TXTPP#tag B"), ("TXTPP#tag B", "TXTPP#tag A"), ("TXTPP#tag AB", "TXTPP#tag B"), ("TXTPP#tag B", "TXTPP#tag AB")):
         for l1 in loud[:6]:
             for l2 in loud[:6]:
                 out.append([t1] + l1 + [t2] + l2 + ["x A y B"])
                 out.append([t1] + l1 + [t2] + l2 + ["-A", "x A y B"])
+                out.append([t1] + l1 + [t2] + l2 + ["AB", "x A y B"])      # names overlapping on one line, then a later use
+                out.append([t1] + l1 + [t2] + l2 + ["AB"])
     for body in (["// c"], ["//"], ["// c", "//"], []):
         for reader in (["TXTPP#include t1"], ["-TXTPP#run cat t1"], ["TXTPP#include t1", "-TXTPP#run cat t1"]):
             for tail in ([], ["x"], ["TXTPP#include p2", "x"]):
